@@ -96,9 +96,17 @@ func genUpload(t *rt.Tape, r *rt.Run, srcDir, tag string, allowOdd bool) *upload
 	stem := source + "_" + strings.ReplaceAll(v.Text, ":", "%3a")
 	u.CtlName = stem + "." + u.Kind
 	n := t.Weighted([]int{1, 3, 3, 2, 1, 1, 1}, "up.nfiles")
+	manyFiles := t.Bool(1, 60, "up.manyfiles")
+	if manyFiles {
+		n = 30 + t.Draw(120, "up.manyfiles.n")
+		r.Probe("upload-with-dozens-of-files")
+	}
 	exts := []string{".orig.tar.gz", ".debian.tar.xz", ".tar.bz2", "_amd64.deb", ".orig-a.tar.gz", "_all.deb", ".diff.gz"}
 	for i := 0; i < n; i++ {
-		base := stem + exts[i]
+		base := stem + fmt.Sprintf("_part%03d.tar.gz", i)
+		if i < len(exts) {
+			base = stem + exts[i]
+		}
 		if u.Kind == "changes" && i == 0 && t.Bool(1, 2, "up.lists-dsc") {
 			base = stem + ".dsc"
 		}
@@ -788,5 +796,5 @@ func init() {
 		},
 		Assumptions: []string{"crash = death of the calling process (completed calls persist); power-loss semantics are not modelled because the library never calls fsync and the property does not promise power-fail durability", "after a crash only the every-instant invariants are demanded; the atomic-failure clause is demanded when an error is returned", "a listed name must resolve to a file directly in the control file's own directory: a subdirectory of it is outside (strict reading of the statement)"},
 	})
-	propProbes["C20"] = []string{"name-listed-only-in-checksum-fields", "second-operation-on-the-same-handle", "destination-holds-hard-links-to-the-source-files", "destination-is-the-source-directory", "traversal-name", "absolute-name", "name-with-subdirectory", "control-file-lists-itself", "file-needs-several-read-write-calls", "uploader-crashed", "EXDEV-on-rename", "fault-on-control-file-create", "fault-on-control-file-write", "fault-on-control-file-close", "fault-on-control-file-rename", "fault-on-first-file", "fault-on-last-file", "crash-between-last-file-and-control-file", "watcher-ran-between-create-and-first-write-of-control-file"}
+	propProbes["C20"] = []string{"upload-with-dozens-of-files", "name-listed-only-in-checksum-fields", "second-operation-on-the-same-handle", "destination-holds-hard-links-to-the-source-files", "destination-is-the-source-directory", "traversal-name", "absolute-name", "name-with-subdirectory", "control-file-lists-itself", "file-needs-several-read-write-calls", "uploader-crashed", "EXDEV-on-rename", "fault-on-control-file-create", "fault-on-control-file-write", "fault-on-control-file-close", "fault-on-control-file-rename", "fault-on-first-file", "fault-on-last-file", "crash-between-last-file-and-control-file", "watcher-ran-between-create-and-first-write-of-control-file"}
 }
